@@ -36,6 +36,8 @@ type Impl struct {
 	OnTerm func()
 	// FailAct makes the next activation fail.
 	FailAct bool
+	// Lent is the object another party handed over with adopt().
+	Lent ProbeProxy
 }
 
 // InitialLevel is the value of the level property after activation.
@@ -104,6 +106,22 @@ func (p *Impl) Blob(n int32) (string, error) {
 		b[i] = byte('a' + i%26)
 	}
 	return string(b), nil
+}
+
+// Adopt keeps the object it is given (possibly hosted by the calling client).
+func (p *Impl) Adopt(o ProbeProxy) error {
+	p.count("adopt")
+	p.Lent = o
+	return nil
+}
+
+// Adopted hands the kept object to whoever asks.
+func (p *Impl) Adopted() (ProbeProxy, error) {
+	p.count("adopted")
+	if p.Lent == nil {
+		return nil, fmt.Errorf("nothing adopted")
+	}
+	return p.Lent, nil
 }
 
 func (p *Impl) Inc() error {
